@@ -19,7 +19,7 @@ func (p *Part) Naming() string { return p.Nm }
 func (p *Part) run(ev string) error {
 	p.RT.Event(ev + ":" + p.Nm)
 	if p.Fail {
-		return ErrInjected{ev + ":" + p.Nm}
+		return p.RT.MkErr(ev + ":" + p.Nm)
 	}
 	return nil
 }
